@@ -68,7 +68,22 @@ COVER = {
     "discopy.monoidal:Diagram.open_bubbles": 0.95,
     "discopy.monoidal:Diagram.open_bubbles.OpenBubbles.__call__": 0.95,
 }
-MIN_EVALS = {}
+MIN_EVALS = {
+    "quick": {"node-census": 8000, "edges-equal-wiring": 4000,
+              "open-wires-strictly-increasing": 55000,
+              "box-strictly-between-neighbours": 17000,
+              "edges-point-downwards": 90000,
+              "interlayer-wires-vertical": 32000, "tikz-renders": 3300,
+              "tikz-draws-every-wire": 3300, "matplotlib-renders": 250,
+              "diagramize-replays-wiring": 2500, "equation-renders": 300,
+              "open-bubbles-structure": 300},
+    "thorough": {"node-census": 170000, "edges-equal-wiring": 85000,
+                 "open-wires-strictly-increasing": 1200000,
+                 "box-strictly-between-neighbours": 370000,
+                 "interlayer-wires-vertical": 700000, "tikz-renders": 70000,
+                 "tikz-draws-every-wire": 70000, "matplotlib-renders": 6000,
+                 "diagramize-replays-wiring": 52000, "equation-renders": 6000,
+                 "open-bubbles-structure": 6000}}
 ASSUMPTIONS = [
     "the layout is judged on the final (graph, positions) of diagram2nx",
     "a diagram with no wire and no box, and a sum with no term, are outside "
@@ -201,18 +216,19 @@ def hostile_monoidal(rng):
 
 def pick_shape(rng, theme, w, k):
     if w >= 7:
-        return rng.choice(["reduce", "effect", "effect"])
+        return rng.choice(["reduce", "effect", "effect", "narrow-mid"])
     menu = {
         "mixed": ["state", "scalar", "effect", "same", "expand", "reduce",
-                  "generic", "generic"],
+                  "generic", "generic", "state-wide"],
         "states": ["state-left", "state-right", "state-mid", "state-mid",
                    "state", "effect", "same"],
         "wide-narrow": ["expand", "narrow-mid", "expand-mid", "state-mid",
-                        "reduce", "effect"],
+                        "reduce", "effect", "expand-wide", "state-wide"],
         "same-arity": ["same", "same", "same", "state", "effect", "expand"],
         "scalars": ["scalar", "scalar", "state", "effect", "scalar-mid"],
         "left-right": ["state-left", "state-right", "state-left",
-                       "state-right", "state-mid", "expand-mid", "effect"],
+                       "state-right", "state-mid", "expand-mid", "effect",
+                       "state-wide"],
         "effects": ["effect", "effect", "state", "reduce", "expand"],
     }[theme]
     return rng.choice(menu)
@@ -229,6 +245,8 @@ def place(rng, shape, w):
         return 0, rng.randint(1, 4), w
     if shape == "state-mid":
         return 0, rng.randint(1, 4), mid
+    if shape == "state-wide":
+        return 0, rng.randint(5, 7), rng.choice([0, mid, mid, w])
     if shape == "scalar":
         return 0, 0, rng.randint(0, w)
     if shape == "scalar-mid":
@@ -246,6 +264,8 @@ def place(rng, shape, w):
         return n, rng.randint(n + 1, 5), rng.randint(0, w - n)
     if shape == "expand-mid":
         return 1, rng.randint(3, 5), min(mid, w - 1)
+    if shape == "expand-wide":
+        return 1, rng.randint(6, 7), min(mid, w - 1)
     if shape == "narrow-mid":
         return 1, rng.randint(0, 1), min(mid, w - 1)
     if shape == "reduce":
